@@ -353,10 +353,56 @@ def _topology(run, ix, EF):
     run.instance("R3", rem.where, "remove_node clears the path memo before deleting", ok3)
     if not ok3:
         run.violation("R3", rem.where, "remove_node deletes nodes/edges without clearing the memoised shortest paths", key=key_of("C09-R3", "remove_node"))
-    ok4 = f"ifa=={p}orb=={p}" in txt and "inself.edge_data" in txt and "delself.edge_data[e]" in txt \
-        and f"inself.parents.items()ifparent=={p}" in txt and "delself.parents[c]" in txt and f"delself.parents[{p}]" in txt \
-        and f"delself.node_data[{p}]" in txt
-    run.instance("R4", rem.where, "remove_node deletes the node, its parent link, its children's links and every edge touching it", ok4)
+    # what is removed from each of the three dicts, by role (del D[k] / D.pop(k); k the removed node itself, or every element
+    # of a selection of D's own keys filtered by "mentions the node"): sa/accum.py describes the selections
+    from ..accum import contributions
+
+    sel = {}
+    for c in contributions(rem.node):
+        sel.setdefault(id(c.node), c)
+    list_defs = {}
+    for st in ast.walk(rem.node):
+        if isinstance(st, ast.Assign) and isinstance(st.targets[0], ast.Name) and id(st.value) in sel:
+            list_defs[st.targets[0].id] = sel[id(st.value)]
+    removed = {"parents": set(), "edge_data": set(), "node_data": set()}
+
+    def removal(dname, key, loop):
+        k = ast.unparse(key)
+        if k == p:
+            removed[dname].add("self")
+            return
+        # `for x in L: del D[x]` with L a filtered selection of D's keys
+        if loop is not None and isinstance(loop.target, ast.Name) and loop.target.id == k:
+            c = list_defs.get(ast.unparse(loop.iter)) or sel.get(id(loop.iter))
+            if c is not None:
+                flt = {(t.replace(" ", ""), pol) for t, pol in c.filters}
+                if dname == "parents" and c.iter.replace(" ", "") in ("self.parents.items()",) and c.elt == "_1" and flt == {(f"_2=={p}", True)}:
+                    removed[dname].add("children")
+                if dname == "edge_data" and c.iter.replace(" ", "") in ("self.edge_data", "self.edge_data.keys()", "list(self.edge_data)", "list(self.edge_data.keys())") \
+                        and c.elt.replace(" ", "") in ("(_1,_2)", "_1,_2") and flt in ({(f"_1=={p}or_2=={p}", True)}, {(f"_2=={p}or_1=={p}", True)}, {(f"{p}in(_1,_2)", True)}):
+                    removed[dname].add("touching")
+                if dname == "edge_data" and c.targets and len(c.targets) == 1 and c.elt == "_1" and flt == {(f"{p}in_1", True)}:
+                    removed[dname].add("touching")
+
+    def walk(body, loop):
+        for st in body:
+            if isinstance(st, ast.Delete):
+                for t in st.targets:
+                    if isinstance(t, ast.Subscript) and isinstance(t.value, ast.Attribute) and ast.unparse(t.value.value) == "self" and t.value.attr in removed:
+                        removal(t.value.attr, t.slice, loop)
+            for c_ in ast.walk(st) if not isinstance(st, (ast.For, ast.While, ast.If, ast.With, ast.Try)) else []:
+                if isinstance(c_, ast.Call) and isinstance(c_.func, ast.Attribute) and c_.func.attr == "pop" and isinstance(c_.func.value, ast.Attribute) \
+                        and ast.unparse(c_.func.value.value) == "self" and c_.func.value.attr in removed and c_.args:
+                    removal(c_.func.value.attr, c_.args[0], loop)
+            if isinstance(st, ast.For):
+                walk(st.body, st)
+            elif isinstance(st, (ast.If, ast.With, ast.Try, ast.While)):
+                for fld in ("body", "orelse", "finalbody"):
+                    walk(getattr(st, fld, []) or [], loop)
+
+    walk(rem.node.body, None)
+    ok4 = removed["node_data"] >= {"self"} and removed["parents"] >= {"self", "children"} and removed["edge_data"] >= {"touching"}
+    run.instance("R4", rem.where, f"remove_node deletes the node, its parent link, its children's links and every edge touching it ({ {k: sorted(v) for k, v in removed.items()} })", ok4)
     if not ok4:
         run.violation("R4", rem.where, "remove_node leaves parent links or edges that refer to the removed node", key=key_of("C09-R4", "remove_node"))
     # shortest_path memo is only consulted with keys that include both end points
